@@ -1,4 +1,6 @@
 """C08 - array inputs are handled elementwise and keep their shape."""
+import warnings
+
 import numpy as np
 
 from . import pipe
@@ -185,6 +187,30 @@ def few_rows(ctx):
                                          fname, n, order, method, i, float(v[i]), float(vs), float(v2[0])),
                                      {'f': fname, 'n': n, 'order': order, 'method': method, 'x': x.tolist(), 'element': i,
                                       'how': 'd = nd.Derivative(f, n=n, method=method, order=order); d(x)[i] vs d(x[i]) vs d(np.array([x[i], x[(i+7) % 60]]))[0], compared with float.hex'})
+    # complex-step methods with an exact zero among ordinary elements (the Bicomplex power has a separate branch for elements whose complex
+    # modulus vanishes): an element's result, NaN-ness included, must not depend on its neighbours
+    for method, n in (('multicomplex', 2), ('multicomplex', 1), ('complex', 1)):
+        for fname2, f2 in (('x**2.5', lambda x: x ** 2.5), ('x**1.5 + x', lambda x: x ** 1.5 + x)):
+            d = nd.Derivative(f2, n=n, method=method, full_output=True)
+            for xa in (np.array([0.0, 1.269, 2.435]), np.array([1.5, 0.0]), np.array([[0.7, 0.0], [0.0, 2.0]])):
+                try:
+                    with np.errstate(all='ignore'), warnings.catch_warnings():
+                        warnings.simplefilter('ignore')
+                        v, info = d(xa)
+                        alone = [d(float(t))[0] for t in np.ravel(xa)]
+                except Exception:   # noqa
+                    continue
+                ctx.count(1, ('zero-among-elements', method, n))
+                va = np.ravel(v)
+                ea = np.ravel(info.error_estimate)
+                for i in range(va.size):
+                    a_, b_ = complex(va[i]), complex(np.ravel(alone[i])[0])
+                    same = (np.isnan(a_) and np.isnan(b_)) or abs(a_ - b_) <= 10 * abs(ea[i]) + 1e-9 * (1 + abs(b_))
+                    if not same:
+                        return ctx.violation('scalar-zero-element:%s' % method,
+                                             'Derivative(lambda x: %s, n=%d, method=%r): element %d (x = %r) of the array call %r is %r, alone it is %r' % (
+                                                 fname2, n, method, i, float(np.ravel(xa)[i]), xa.tolist(), va[i], np.ravel(alone[i])[0]),
+                                             {'f': fname2, 'n': n, 'method': method, 'x': xa.tolist(), 'element': i})
     # a boundary NUMBER of steps (rule length + 1, + 2, + 3): with exactly two extrapolated rows the Richardson error estimates (not dea3's)
     # decide the selection; neighbours of very different magnitude must not enter an element's tolerances
     quintic = lambda x: x * x * x * x * x + x * x      # noqa  (multiplications only: identical bits for scalars and arrays)
